@@ -128,6 +128,9 @@ VALID_SEEDS = ['null', 'true', 'false', '0', '-1.5e+10', '"a\\nb"', '"é😀"', 
                '[1.0,2e5,-0]', '{"a":1,"a":1}', '{"a":1,"a":"x"}', '"\\u12aF"', '[true,false,null]', '\n1\n', '[\r\n]']
 
 INSERT_ALPHABET = list(' \t\n\r"\\/,:[]{}-+.0159eEatrufnsl\x00\x1f\x7fé 😀﻿xX_#\'')
+# characters that LOOK like JSON syntax to a Unicode-aware class (\d, \s, is_whitespace, is_alphabetic ...) but are
+# not: decimal digits of other scripts, full-width punctuation, Unicode spaces, line / paragraph separators
+INSERT_ALPHABET += list("٢५１\U0001d7d9\u0085    　，：［｛“−")
 
 def mutations(t):
     """every prefix, every single-character deletion, and every single-character insertion /
@@ -150,7 +153,9 @@ def mutations(t):
 def nest(n, open_="[", close="]", core=""):
     return open_ * n + core + close * n
 
-NEGATIVES = ['', ' ', '\n', '[1,]', '[,1]', '[1,,2]', '[,]', '{,}', '{"a":1,}', '{"a" 1}', '{"a":}', '{"a"}', '{:1}', '{1:2}',
+NEGATIVES = ['1٢', '[10１]', '1.٥', '1e१', '-7۷', '١', '0٠', '[1，2]', '{"a"：1}', '［1］',
+             '“a”', '−1', '1 ', ' 1', '[1, 2]', 'truе', 'nulⅼ',
+             '', ' ', '\n', '[1,]', '[,1]', '[1,,2]', '[,]', '{,}', '{"a":1,}', '{"a" 1}', '{"a":}', '{"a"}', '{:1}', '{1:2}',
              '{"a":1 "b":2}', '{"a":1,:2}', '{"a"::1}', '{"a":1:2}', '{"a":"b":"c"}', '{"a":1,2}', '[1 2]', '[1:2]', '[1,:2]',
              '01', '-01', '00', '1.', '.5', '-.5', '+1', '1e', '1e+', '1.e5', '1.5.5', '0x10', '1_000', '-', '--1', '- 1',
              'Infinity', 'NaN', '-Infinity', '1e5x', '1a', 'nul', 'nulll', 'tru', 'truee', 'True', 'NULL', 'fals', 'nullx',
@@ -213,6 +218,12 @@ def scale_texts(rng, big=False):
             out += ["1" * n, "-0." + "1" * n, "1e" + "9" * n, "1E-" + "0" * n + "1", "0" + "1" * n, "1." + "0" * n + "e", "[" + "1" * n + ",\"s\"]",
                     " " * n + "1", "1" + "\n" * n, "[" + " \r\n" * (n // 3) + "]", "{" + "\t" * n + '"a"' + " " * n + ":" + "\n" * n + "1}",
                     "\r" * n + "[]", " " * n, "1" + " " * n + "2"]
+    if not big:
+        # unterminated strings whose error node crosses every small byte offset inside a multi-byte character
+        for mb in ("é", "日", "\U0001f600"):
+            for units in (40, 64, 100, 128, 150, 200, 256, 300, 700, 1100, 2100):
+                for pad in ("", "a", "ab", "abc"):
+                    out += ['"' + pad + mb * units, '{"id": 7, "title": "' + pad + mb * units, '["a", "' + pad + mb * units + '\\']
     for n in ((300, 700) if not big else (70000,)):      # the model's span computation is quadratic in the node count
         out += ["[" + ",".join(["1"] * n) + ',"s"]', "[" + ",".join(["1"] * n) + ",]", "{" + ",".join('"k%d":%d' % (i, i) for i in range(n)) + "}",
                 "{" + ",".join('"k%d":%d' % (i, i) for i in range(n)) + ",}", "[" + ",".join('{"a":1}' for _ in range(n)) + ',{"a":"s"}]'[:0] + "]"]
